@@ -289,12 +289,23 @@ pub fn gen_value(r: &mut Rng, depth: usize, out: &mut String) {
 /// Strings from controls, quotes, backslashes, U+2028, non-BMP, noncharacters.
 pub fn gen_cps(r: &mut Rng) -> String {
     let n = if r.chance(1, 8) { r.range(6, 20) } else { r.below(4) };
-    let pool: [u32; 24] = [
-        0, 1, 8, 9, 0xa, 0xb, 0xc, 0xd, 0x1f, 0x20, 0x22, 0x2f, 0x5c, 0x61, 0x7f, 0x80, 0xe9, 0x2028, 0xd7ff, 0xe000,
-        0xfffe, 0x10000, 0x1f600, 0x10ffff,
+    let pool: [u32; 40] = [
+        0, 1, 8, 9, 0xa, 0xb, 0xc, 0xd, 0x1a, 0x1f, 0x20, 0x22, 0x2f, 0x5c, 0x61, 0x7f, 0x80, 0x85, 0xa0, 0xad, 0xe9, 0x61c, 0x200b,
+        0x200e, 0x2028, 0x2029, 0xd7ff, 0xe000, 0xfdd0, 0xfeff, 0xfffd, 0xfffe, 0xffff, 0x10000, 0x1f600, 0xe0001, 0xfffff, 0x100000,
+        0x10fffe, 0x10ffff,
     ];
     let v: Vec<u32> = (0..n)
-        .map(|_| if r.chance(1, 4) { 0x61 + r.below(26) as u32 } else { *r.pick(&pool) })
+        .map(|_| match r.below(16) {
+            0..=3 => 0x61 + r.below(26) as u32,
+            4 => loop {
+                // any scalar value
+                let c = r.below(0x110000) as u32;
+                if !(0xd800..0xe000).contains(&c) {
+                    break c;
+                }
+            },
+            _ => *r.pick(&pool),
+        })
         .collect();
     hex_cps(v.into_iter())
 }
@@ -312,14 +323,21 @@ fn gen_limit(r: &mut Rng) -> Option<Limit> {
 fn gen_opts(r: &mut Rng) -> O {
     let mut a = [0usize; 5];
     let mut o = [0usize; 7];
-    for x in a.iter_mut() {
-        *x = r.below(4);
+    // mostly 0..3; one record in five draws some fields from larger sizes (around 8, 16, 32, 64)
+    let big = r.chance(1, 5);
+    const BIG: [usize; 14] = [4, 5, 7, 8, 9, 15, 16, 17, 24, 31, 32, 33, 64, 65];
+    for x in a.iter_mut().chain(o.iter_mut()) {
+        *x = if big && r.chance(1, 3) { BIG[r.below(BIG.len())] } else { r.below(4) };
     }
-    for x in o.iter_mut() {
-        *x = r.below(4);
-    }
+    let indent = if big && r.chance(1, 2) {
+        (if r.chance(1, 2) { 'S' } else { 'T' }, [7u8, 8, 9, 16, 255][r.below(5)])
+    } else if r.chance(2, 3) {
+        ('S', r.below(5) as u8)
+    } else {
+        ('T', r.below(3) as u8)
+    };
     O {
-        indent: if r.chance(2, 3) { ('S', r.below(5) as u8) } else { ('T', r.below(3) as u8) },
+        indent,
         a,
         al: gen_limit(r),
         o,
@@ -406,7 +424,7 @@ pub fn generate_layout(args: &Args, out: &mut Out) {
     ];
     for base in presets() {
         for f1 in 0..12 {
-            for x in 0..4usize {
+            for x in [0usize, 1, 2, 3, 8, 16] {
                 for f2 in f1..12 {
                     for y in [0usize, 3] {
                         let mut o = base.clone();
@@ -432,6 +450,28 @@ pub fn generate_layout(args: &Args, out: &mut Out) {
                     }
                 }
             }
+        }
+    }
+    // 2b. every character class as a one-character string and key (pretty and compact presets)
+    {
+        let mut cs: Vec<u32> = (0..0x100).collect();
+        for b in [0x7ffu32, 0x800, 0x2028, 0x2029, 0xd7ff, 0xe000, 0xfeff, 0xfffd, 0xffff, 0x10000, 0x10ffff] {
+            for d in 0..3u32 {
+                let c = (b + d).saturating_sub(1).min(0x10ffff);
+                if !(0xd800..0xe000).contains(&c) {
+                    cs.push(c);
+                }
+            }
+        }
+        for _ in 0..(if full { 20000 } else { 1000 }) {
+            let c = rng.below(0x110000) as u32;
+            if !(0xd800..0xe000).contains(&c) {
+                cs.push(c);
+            }
+        }
+        let ps = presets();
+        for (i, c) in cs.into_iter().enumerate() {
+            out.case(|| format!("p {} | {{ ${:x} [ ${:x},61 ] }}", ps[i % 2].tokens(), c, c));
         }
     }
     // 3. random value x random options, with straddling limits for every fifth
